@@ -85,6 +85,91 @@ func (f *Frame) havocCalls(st *State) {
 	}
 }
 
+// havocCallsOf: like havocCalls, but a counter stays exact when the callee provably cannot reach a
+// function of the counted name: its source is loaded and neither it nor anything it statically calls
+// (transitively, within the loaded sources) calls a function of that name, makes an interface-method
+// or function-value call (unknown target), or starts a goroutine. Callees without loaded source
+// (standard library, other modules) cannot name this module's functions; they only reach them through
+// callbacks, which are function-value calls made by *their* callers' arguments -- a function literal or
+// method value passed as an argument makes the result conservative again.
+func (f *Frame) havocCallsOf(st *State, fn *types.Func) {
+	for name := range f.c.specs.Tracked {
+		if fn != nil && !f.mayReach(fn, name, map[*types.Func]bool{}) {
+			continue
+		}
+		k := callsKey(name)
+		old, ok := st.gh[k]
+		if !ok {
+			continue
+		}
+		n := f.c.fresh("calls_"+name, "Int")
+		st.gh[k] = Val{T: n}
+		st.assume(fmt.Sprintf("(>= %s %s)", n, old.T))
+	}
+}
+
+func (f *Frame) mayReach(fn *types.Func, name string, seen map[*types.Func]bool) bool {
+	fn = fn.Origin()
+	if seen[fn] {
+		return false
+	}
+	seen[fn] = true
+	if len(seen) > 400 {
+		return true
+	}
+	src := f.c.w.funcs[fn]
+	if src == nil || src.Decl.Body == nil {
+		// no source: an interface method (unknown implementation) may reach anything; a function outside
+		// the loaded sources cannot name the counted function
+		if sig, ok := fn.Type().(*types.Signature); ok && sig.Recv() != nil {
+			if _, isIfc := sig.Recv().Type().Underlying().(*types.Interface); isIfc {
+				return true
+			}
+		}
+		return false
+	}
+	info := src.Pkg.TypesInfo
+	reach := false
+	ast.Inspect(src.Decl.Body, func(n ast.Node) bool {
+		if reach {
+			return false
+		}
+		switch x := n.(type) {
+		case *ast.GoStmt:
+			reach = true
+		case *ast.FuncLit:
+			reach = true // a closure may be handed to code that calls it
+		case *ast.CallExpr:
+			if tv, ok := info.Types[x.Fun]; ok && tv.IsType() {
+				return true
+			}
+			if id, ok := ast.Unparen(x.Fun).(*ast.Ident); ok {
+				if _, isB := info.ObjectOf(id).(*types.Builtin); isB {
+					return true
+				}
+			}
+			callee, _ := typeutil.Callee(info, x).(*types.Func)
+			if callee == nil {
+				reach = true // call through a function value
+				return false
+			}
+			if callee.Name() == name {
+				reach = true
+				return false
+			}
+			if k := funcKey(callee); isLoggingCall(k) || isMutexCall(k) {
+				return true // logging and mutex calls are dropped by the model: they reach nothing
+			}
+			if f.mayReach(callee, name, seen) {
+				reach = true
+				return false
+			}
+		}
+		return true
+	})
+	return reach
+}
+
 func (f *Frame) evalCall1(st *State, call *ast.CallExpr, before *Val, countKey string) []Val {
 	// conversion
 	if tv, ok := f.info.Types[call.Fun]; ok && tv.IsType() {
@@ -332,7 +417,7 @@ func (f *Frame) callUnknown(st *State, call *ast.CallExpr, fn *types.Func, why s
 		why = "no contract"
 	}
 	f.c.note(fmt.Sprintf("havoc: call to %s (%s): results arbitrary, reachable arguments havocked", key, why))
-	f.havocCalls(st)
+	f.havocCallsOf(st, fn)
 	// havoc mutable arguments
 	if recvVal != nil {
 		sel := ast.Unparen(call.Fun).(*ast.SelectorExpr)
@@ -792,7 +877,7 @@ func (f *Frame) callByContract(st *State, call *ast.CallExpr, fn *types.Func, ct
 		pre.gh[gk] = gv
 	}
 	if !ct.Pure {
-		f.havocCalls(st)
+		f.havocCallsOf(st, fn)
 	}
 	k := f.c.counters["call:"+ct.Name]
 	f.c.counters["call:"+ct.Name] = k + 1
